@@ -325,6 +325,23 @@ def from_impl_variant(P, err_adt, src_ty):
     return None
 
 
+def from_impl_variants(P, err_adt):
+    """{source type: set of err_adt variants `impl From<source> for err_adt` can construct}"""
+    out = {}
+    for imp in P.F.impls:
+        tr = imp.get('trait') or ''
+        if imp['self'] == err_adt and tr.startswith('core::convert::From<'):
+            src = tr[len('core::convert::From<'):-1]
+            vs = set()
+            for it in imp['items']:
+                for B in bodies_of_fn(P, it):
+                    for bb, j, st in B.stmts():
+                        if st['k'] == '=' and st['rv']['k'] == 'agg' and st['rv'].get('adt') == err_adt:
+                            vs.add(st['rv']['var'])
+            out[src] = vs
+    return out
+
+
 def produced_errors(P, fn_path, err_adt, _seen=None, depth=0):
     """Over-approximate set of err_adt variants a function can return:
     variants constructed in it (and its closures), `?`-conversions From<E>, and, recursively,
@@ -347,9 +364,10 @@ def produced_errors(P, fn_path, err_adt, _seen=None, depth=0):
             if g == 'core::ops::try_trait::FromResidual::from_residual' and t.get('aty'):
                 m = re.match(r'core::result::Result<core::convert::Infallible, (.*)>$', t['aty'][0])
                 if m and m.group(1) != err_adt:
-                    v = from_impl_variant(P, err_adt, m.group(1))
-                    if v:
-                        res.setdefault(v, '`?` conversion From<%s>' % m.group(1))
+                    vs_ = from_impl_variants(P, err_adt).get(m.group(1))
+                    if vs_:
+                        for v in sorted(vs_):
+                            res.setdefault(v, '`?` conversion From<%s>' % m.group(1))
                     else:
                         res.setdefault('?From<%s>' % m.group(1), 'unresolved conversion')
             for n in (g, r):
